@@ -217,7 +217,9 @@ def run(ck: Check):
     for in_dim, stride in (((2, 33000), 1), ((2, 70000), 2)):
         strip = LogicConv2d(in_dim=in_dim, device="cpu", channels=1, num_kernels=1, tree_depth=1, receptive_field_size=2,
                             stride=stride, weight_init="random")
-        nets.set_tree_gates(ck.rng, strip, "raw")
+        for level in strip.tree_weights:                      # XOR everywhere: the output depends on every pixel of the window
+            for w in level:
+                nets.set_gates(ck.rng, w, [6] * w.shape[0], "raw")
         model = torch.nn.Sequential(strip)
         spec = nets.extract(model)
         row = [ck.rng.randrange(2) for _ in range(in_dim[0] * in_dim[1])]
